@@ -627,6 +627,33 @@ pub fn judge_mutant(index: u64, base: &Base, m: &Mutant, st: &mut Stats) {
             }
         }
     }
+    // injectivity of the implementation's own canonical request, with every header value flagged sensitive and the
+    // request presented as HTTP/2: two requests whose reference canonical requests differ must not canonicalise alike
+    // (if they did, one signature would cover both)
+    if !crate::env::ambient_b() && index % 2 == 0 {
+        if let (Some(rc_m), Ok(received_b)) = (&j.reference.canonical_request, base.wire.as_received()) {
+            let rb = refmodel::verify::validate(&received_b, &base.cfg.to_ref(), &mut |a| ProvSpec::standard().ref_answer(a));
+            if let Some(rc_b) = &rb.canonical_request {
+                if rc_b != rc_m {
+                    let ib = crate::sut::impl_canonical_flagged(&base.wire, &base.cfg, http::Version::HTTP_2);
+                    let im = crate::sut::impl_canonical_flagged(&m.wire, &base.cfg, http::Version::HTTP_2);
+                    if let (Some(ib), Some(im)) = (ib, im) {
+                        st.transitions += 1;
+                        if ib == im {
+                            st.violation(Violation {
+                                index,
+                                what: "canonical-request-collision:two-requests-that-differ-canonicalise-alike-when-header-values-are-flagged-sensitive".into(),
+                                case: json!({"e2e": case, "base": base.name, "mutation": m.label, "collides_with": Case { wire: base.wire.clone(), cfg: base.cfg.clone(), prov: ProvSpec::standard() }}),
+                                expected: "different canonical requests (the reference's differ)".into(),
+                                observed: String::from_utf8_lossy(&im).chars().take(400).collect(),
+                                known: j.known.clone(),
+                            });
+                        }
+                    }
+                }
+            }
+        }
+    }
     if let SutResult::Unbuildable(_) = j.sut {
         st.note("mutant-not-representable-in-http");
         return;
@@ -933,7 +960,7 @@ pub fn run(ctx: &Ctx) -> Report {
     Report {
         stats: st,
         rule: format!(
-            "{} validly signed base requests (carrier x options x token x shape, one shape carrying x-amz-content-sha256 / Content-Length / Content-MD5 as S3 clients do), each accepted by implementation and reference; for each, every single-component mutation: 13 methods; every URI position x every byte http admits ({} values) + 7 insertions + deletion per position; every header (signed — list-valued ones split at every list separator into two fields, adjacent fields of one name joined by 6 separators or swapped, each under HTTP/1.0, 1.1, 2 and 3; one value holds Latin-1 bytes, a UTF-8 sequence and the replacement character U+FFFD; another is valid UTF-8 made of replacement characters only —, unsigned, Authorization, date, token) position x 11 bytes (incl. 0xE8, 0xE9, 0xA0, 0xC3) + insertion + deletion, header removed/added/duplicated/renamed; every bit of every body byte, truncations, appends, byte-order marks / zero-width space / CR LF inserted into bodies; old signature transplanted onto requests re-signed with a changed instant (10 deltas, 5 renderings), date text (also with a seconds / minutes / hours field one or two beyond its range, in four forms; one base is stamped on the last second of a minute with its date header unsigned), 12 scope near-misses, 5 access keys, signed-list drops/additions, token changes; provider key: all 256 single-bit flips, 5 off-by-one derivations, another secret; signature: every digit x 15 other values, upper case, every truncation, extensions, all hex strings of length <= 2{}. Also requests with 9 999 .. 20 000 one-letter query parameters (10 001 .. 100 000 in a folded form body): a parameter appended, the last changed or dropped, the first changed under the genuine signature. Finally the genuine request, a forged one under its signature (method / path / body changed) and the genuine one again are validated as two (thorough: three) futures multiplexed on one thread against a provider that is Pending first, in every order of polls. Each mutant is validated right after the genuine request was accepted on the same thread (so a remembered success cannot vouch for it); every mutant the reference refuses is also submitted as the Parts the validator returned for the genuine request, overwritten with the mutant's method, target, headers and body (whatever the validator left in those Parts cannot vouch for another request). Oracle: the implementation may return Ok only if the reference verifier, run on the request as received with the key the provider handed out, accepts. states = distinct reference strings-to-sign (+ refusal stage); non-trivial = distinct (mutated request, provider)",
+            "{} validly signed base requests (carrier x options x token x shape, one shape carrying x-amz-content-sha256 / Content-Length / Content-MD5 as S3 clients do), each accepted by implementation and reference; for each, every single-component mutation: 13 methods; every URI position x every byte http admits ({} values) + 7 insertions + deletion per position; every header (signed — list-valued ones split at every list separator into two fields, adjacent fields of one name joined by 6 separators or swapped, each under HTTP/1.0, 1.1, 2 and 3; one value holds Latin-1 bytes, a UTF-8 sequence and the replacement character U+FFFD; another is valid UTF-8 made of replacement characters only —, unsigned, Authorization, date, token) position x 11 bytes (incl. 0xE8, 0xE9, 0xA0, 0xC3) + insertion + deletion, header removed/added/duplicated/renamed; every bit of every body byte, truncations, appends, byte-order marks / zero-width space / CR LF inserted into bodies; old signature transplanted onto requests re-signed with a changed instant (10 deltas, 5 renderings), date text (also with a seconds / minutes / hours field one or two beyond its range, in four forms; one base is stamped on the last second of a minute with its date header unsigned), 12 scope near-misses, 5 access keys, signed-list drops/additions, token changes; provider key: all 256 single-bit flips, 5 off-by-one derivations, another secret; signature: every digit x 15 other values, upper case, every truncation, extensions, all hex strings of length <= 2{}. For every second mutant the implementation's own canonical request (unstable API), computed with every header value flagged sensitive and the request presented as HTTP/2, is compared with that of the genuine request: where the reference canonical requests differ, they must differ too. Also requests with 9 999 .. 20 000 one-letter query parameters (10 001 .. 100 000 in a folded form body): a parameter appended, the last changed or dropped, the first changed under the genuine signature. Finally the genuine request, a forged one under its signature (method / path / body changed) and the genuine one again are validated as two (thorough: three) futures multiplexed on one thread against a provider that is Pending first, in every order of polls. Each mutant is validated right after the genuine request was accepted on the same thread (so a remembered success cannot vouch for it); every mutant the reference refuses is also submitted as the Parts the validator returned for the genuine request, overwritten with the mutant's method, target, headers and body (whatever the validator left in those Parts cannot vouch for another request). Oracle: the implementation may return Ok only if the reference verifier, run on the request as received with the key the provider handed out, accepts. states = distinct reference strings-to-sign (+ refusal stage); non-trivial = distinct (mutated request, provider)",
             bs.len(), uri_bytes.len(),
             if thorough { "; plus all pairs over ~600 strided mutation sites on four bases" } else { "" }
         ),
